@@ -33,11 +33,28 @@ Definition obs_room_id (s : bytes) : bytes :=
   | None => bs "invalid"
   end.
 
+(* ---- net.ParseIP ---- *)
+Definition run_parse_ip (args : list bytes) : bytes :=
+  match args with
+  | [s] =>
+      match parse_ip s with
+      | Some (IP4 a b c d) =>
+          join_bytes (bs ",") (map print_dec [0; 0; 0; 0; 0; 65535; a * 256 + b; c * 256 + d])
+      | Some (IP6 l) => join_bytes (bs ",") (map print_dec l)
+      | None => bs "nil"
+      end
+  | _ => bs "badargs"
+  end.
+
 (* kind: server | user0 | user1 | room *)
 Definition obs_kind (kind s : bytes) : bytes :=
   if bytes_eqb kind (bs "server") then obs_server_name s
   else if bytes_eqb kind (bs "user0") then obs_user_id false s
   else if bytes_eqb kind (bs "user1") then obs_user_id true s
+  else if bytes_eqb kind (bs "ip") then
+    match run_parse_ip [s] with
+    | r => if bytes_eqb r (bs "nil") then bs "invalid" else bs "ok " ++ r
+    end
   else obs_room_id s.
 
 Definition strict_kind (kind s : bytes) : bool :=
@@ -45,6 +62,12 @@ Definition strict_kind (kind s : bytes) : bool :=
   else if bytes_eqb kind (bs "user0") then user_strict false s
   else if bytes_eqb kind (bs "user1") then user_strict true s
   else room_strict s.
+
+Definition departure_kind (kind s : bytes) : bytes :=
+  if bytes_eqb kind (bs "server") then sn_departure s
+  else if bytes_eqb kind (bs "user0") then user_departure false s
+  else if bytes_eqb kind (bs "user1") then user_departure true s
+  else room_departure s.
 
 Definition sigil_kind (kind : bytes) : N :=
   if bytes_eqb kind (bs "room") then 33 else 64.
@@ -72,7 +95,8 @@ Definition reassembles (kind s obs : bytes) : bool :=
 Definition prop_parse (kind s obs : bytes) : bytes :=
   let want := strict_kind kind s in
   if negb (Bool.eqb want (starts_ok obs)) then
-    (if want then bs "FAIL in-grammar-but-refused" else bs "FAIL accepted-not-in-grammar")
+    (if want then bs "FAIL in-grammar-but-refused"
+     else bs "FAIL accepted-not-in-grammar: " ++ departure_kind kind s)
   else if want && negb (reassembles kind s obs) then bs "FAIL parts-do-not-reassemble"
   else bs "ok".
 
@@ -97,6 +121,21 @@ Definition run_enum (args : list bytes) : bytes :=
   | _ => bs "badargs"
   end.
 
+(* short description of a list of strings: how many, what they all start with, the first five *)
+Fixpoint common_prefix (a b : bytes) : bytes :=
+  match a, b with
+  | x :: a', y :: b' => if x =? y then x :: common_prefix a' b' else []
+  | _, _ => []
+  end.
+
+Definition summary (l : list bytes) : bytes :=
+  match l with
+  | [] => []
+  | x :: r =>
+      bs " n=" ++ print_dec (N.of_nat (length l)) ++ bs " common-prefix=" ++ fold_left common_prefix r x
+      ++ bs " e.g. " ++ join_bytes (bs " ") (firstn 5 l)
+  end.
+
 (* oracle over the same enumeration: which strings the implementation accepted (lines of obs, in
    enumeration order) against the grammar decider *)
 Definition prop_enum (args : list bytes) : bytes :=
@@ -119,22 +158,9 @@ Definition prop_enum (args : list bytes) : bytes :=
       | [], [], [] => bs "ok"
       | _, _, _ =>
           bs "FAIL" ++
-          (match extra with [] => [] | _ => bs " accepted-not-in-grammar: " ++ join_bytes (bs " ") (rev extra) end) ++
-          (match missing with [] => [] | _ => bs " in-grammar-but-refused: " ++ join_bytes (bs " ") (rev missing) end) ++
-          (match pending with [] => [] | _ => bs " unmatched-lines" end)
-      end
-  | _ => bs "badargs"
-  end.
-
-(* ---- net.ParseIP ---- *)
-Definition run_parse_ip (args : list bytes) : bytes :=
-  match args with
-  | [s] =>
-      match parse_ip s with
-      | Some (IP4 a b c d) =>
-          join_bytes (bs ",") (map print_dec [0; 0; 0; 0; 0; 65535; a * 256 + b; c * 256 + d])
-      | Some (IP6 l) => join_bytes (bs ",") (map print_dec l)
-      | None => bs "nil"
+          (match extra with [] => [] | _ => bs " accepted-not-in-grammar" ++ summary (rev extra) end) ++
+          (match missing with [] => [] | _ => bs "; in-grammar-but-refused" ++ summary (rev missing) end) ++
+          (match pending with [] => [] | _ => bs "; unmatched-lines" end)
       end
   | _ => bs "badargs"
   end.
@@ -325,6 +351,16 @@ Definition prop_version_traits (args : list bytes) : bytes :=
 
 Definition run_versions (args : list bytes) : bytes := names_text gen_versions.
 
+(* lenientByteLimitRoomVersions: the keys, sorted; it must hold exactly the registered versions *)
+Definition run_lenient_versions (args : list bytes) : bytes :=
+  join_bytes (bs ",") (sort_names gen_lenient_byte_limit_versions).
+
+Definition prop_lenient_versions (args : list bytes) : bytes :=
+  match args with
+  | [obs] => prop_verdict (join_bytes (bs ",") (sort_names (ver_names spec_table))) obs
+  | _ => bs "badargs"
+  end.
+
 Definition prop_versions (args : list bytes) : bytes :=
   match args with
   | [obs] => prop_verdict (names_text spec_table) obs
@@ -350,6 +386,8 @@ Definition ops_C17 : list (bytes * (list bytes -> bytes)) :=
     (bs "C17.build", run_build);
     (bs "C17.version_traits", run_version_traits);
     (bs "C17.versions", run_versions);
+    (bs "C17.lenient_versions", run_lenient_versions);
+    (bs "C17.prop.lenient_versions", prop_lenient_versions);
     (bs "C17.prop.server_name", fun a => match a with [s; o] => prop_parse (bs "server") s o | _ => bs "badargs" end);
     (bs "C17.prop.user_id", fun a => match a with [h; s; o] => prop_parse (if flag_of h then bs "user1" else bs "user0") s o | _ => bs "badargs" end);
     (bs "C17.prop.room_id", fun a => match a with [s; o] => prop_parse (bs "room") s o | _ => bs "badargs" end);
